@@ -91,6 +91,11 @@ func runC01(c *Ctx) {
 	R.Rule("C01.R9", "the library never registers an element pattern itself: the functions that store into the element-pattern table (the exported pattern builders) are not called from within the module")
 	noInternalPatternRegistration(c, "C01.R9")
 	R.Rule("C01.R8", "an element enters the allowlist only for a reason: in the attribute builders (OnElements, OnElementsMatching) an element's table entry is created only inside the loop over the attribute names being registered, or under the builder's allow-without-attributes flag — AllowAttrs() with no names must not allowlist anything")
+	R.Rule("C01.R10", "a policy's element tables are its own (= C17.R4, cited): the maps installed in the element-rule and element-pattern fields are freshly made by the storing function — a table shared with another policy (a cached constructor result, an incomplete copy) admits in one policy the elements allowed in the other")
+	if F10 := model.FindFields(c.P); F10 != nil {
+		e1, e2 := F10.Get("elsAndAttrs"), F10.Get("elsMatchingAndAttrs")
+		freshTables(c, "C01.R10", func(f string) bool { return f == e1 || f == e2 }, 2)
+	}
 	R.Rule("C01.R7", "the element tables (elsAndAttrs, elsMatchingAndAttrs) are written only by builder methods, never on a sanitising path (except the !initialized-guarded makes in init)")
 	R.Assume(TrustGo, TrustTokenizer, TrustTokenString, "what a browser's HTML5 parser makes of the emitted bytes (token splitting/merging, foreign content, unescaped characters inside admitted tag names) is NOT decided")
 	sc := newSC(c, "C01.R1")
@@ -303,7 +308,28 @@ func c01ReturnedMap(c *Ctx, sc *SC, fn *ssa.Function) {
 		if !ok {
 			continue
 		}
-		_, isMake := r.Results[0].(*ssa.MakeMap)
+		// a map made by this call, no map at all (nil), or a merge of those (made lazily on the first match)
+		var fresh func(v ssa.Value, d int) bool
+		fresh = func(v ssa.Value, d int) bool {
+			switch x := v.(type) {
+			case *ssa.MakeMap:
+				return true
+			case *ssa.Const:
+				return x.IsNil()
+			case *ssa.Phi:
+				if d > 6 {
+					return true // a cycle of φs closes on values already judged
+				}
+				for _, e := range x.Edges {
+					if e != v && !fresh(e, d+1) {
+						return false
+					}
+				}
+				return true
+			}
+			return false
+		}
+		isMake := fresh(r.Results[0], 0)
 		R.Check(isMake, "C01.R3", fmt.Sprintf("matchRegex:map#%d", i), "(*Policy).matchRegex: returned rule map", c.P.Pos(r.Pos()), "freshly made in this call", "the returned map is not allocated by this call ("+fmt.Sprintf("%T", r.Results[0])+"): merged rules would alias or mutate policy state")
 	}
 	_ = types.Typ
